@@ -196,6 +196,11 @@ def check_case(case):
         problems.append("result after the reference date")
     if pref == "future" and got.date() < ref.date():
         problems.append("result before the reference date")
+    if pref == "future" and form == "day_month" and got < ref.replace(tzinfo=None):
+        # a day-and-month string names one day per year; read on that very day (later than 00:00) the occurrence that is "not
+        # before the reference time" is next year's (month-only strings name a period that contains the reference, and two-digit
+        # years fix the year up to the century: those stay on the date-level comparison)
+        problems.append("result before the reference time (same calendar day)")
     if form == "yy":
         if got.year % 100 != yy:
             problems.append("two-digit year not preserved")
@@ -214,6 +219,8 @@ def check_case(case):
             problems.append("current_period left the reference year")
         if got.year != ref.year:
             boundary.append("cross-year")
+    if form == "day_month" and (case["m"], case["d"]) == (ref.month, ref.day):
+        cls.append("names-the-reference-day")
     cls.extend(boundary)
     nontrivial = bool(boundary) or "feb29" in cls
     key = (form, pref, tuple(boundary), "feb29" in cls, case.get("style"), ref.month, case.get("m")) if nontrivial else None
